@@ -16,3 +16,5 @@ mod k_client;
 mod k_plan;
 #[cfg(kani)]
 mod k_vc;
+#[cfg(kani)]
+mod k_assert;
